@@ -221,6 +221,18 @@ func inDirOut(ref *Ref, p string) bool {
 	return false
 }
 
+// dirOutOf: the directory output that holds file p ("" if none)
+func dirOutOf(ref *Ref, p string) string {
+	for dir, parts := range ref.DirOuts {
+		for _, f := range parts {
+			if f == p {
+				return dir
+			}
+		}
+	}
+	return ""
+}
+
 func classOfAfter(after string) string {
 	f := strings.Fields(after)
 	if len(f) == 0 {
